@@ -53,6 +53,8 @@ def main():
     patch = os.path.join(out_dir, "patch.diff")
     demo_dir = os.path.join(out_dir, "demo")
     meta = {"property": prop, "name": name, "source_dir": out_dir, "ran": []}
+    prev_path = os.path.join(VERIF, "seeded", name, "meta.json")
+    prev = json.load(open(prev_path)) if os.path.exists(prev_path) else None
     notes = os.path.join(out_dir, "notes.md")
     if os.path.exists(notes):
         meta["needs_to_manifest"] = open(notes).read()[:3000]
@@ -129,6 +131,12 @@ def main():
         if target != REPO:
             sh(f"git -C {REPO} worktree remove --force {target}")
             shutil.rmtree(target, ignore_errors=True)
+    if prev:
+        # keep the confirmation results and the history of earlier evaluations
+        for k, v in prev.items():
+            if k not in meta or (k in ("demo_confirms", "compiles_and_passes_suite", "demo_cmds", "demo_copies", "suite_passed_count", "suite_baseline_missing", "demo_rc_with_patch", "demo_rc_without_patch") and skip_confirm):
+                meta[k] = v
+        meta["earlier_rounds"] = prev.get("earlier_rounds", []) + [{"ran": prev.get("ran", []), "detected_by": prev.get("detected_by", [])}]
     meta["detected_by"] = [r["check"] for r in meta["ran"] if r["exit"] == 1]
     dst = os.path.join(VERIF, "seeded", name)
     os.makedirs(dst, exist_ok=True)
